@@ -382,7 +382,7 @@ class Input(object):
             script_type = 'nonstandard_0001'
 
         inp_type = 'legacy'
-        if witness_type == 'segwit' and not unlocking_script_size:
+        if witness_type == 'segwit' and (not unlocking_script_size or prev_hash == 32 * b'\0'):
             inp_type = 'segwit'
         sequence_number = raw.read(4)
 
